@@ -239,7 +239,8 @@ Qed.
 Print Assumptions c01_ptr_scaling_refuted.
 
 (* -- statements: the skeleton CCodeGenerator.gen_stmt builds for compound / expression statements / declarations
-      with initialiser / if / if-else / while / do-while / for / break / continue / return over integer locals
+      with initialiser / if / if-else / while / do-while / for / break / continue / return / switch (case, default, fall
+      through, break; gen_switch's body-then-test-chain layout) over integer locals
       (Model/CGenStmt.v: lower_stmt, run by srun with Spec/IRSem arithmetic) ends like the C big-step semantics
       Spec/CStmtSpec.v: same outcome (normal, break, continue, return v), same final store, same fuel, whenever the
       C execution is defined and terminates.  Unbounded over statements, stores, fuel, data models and typing
@@ -273,6 +274,31 @@ Example c01_stmt_nonvacuous :
   agrees_stmt (sem_c11 (cg_ctx tg_x86_64)) (dm_of (cg_ctx tg_x86_64)) [TInt; TInt; TInt] body = true /\
   run_fn (dm_of (cg_ctx tg_x86_64)) [TInt; TInt; TInt] 1 TInt 50 [5] body = Some 8.
 Proof. split; reflexivity. Qed.
+
+(* switch: the dispatch chain the code generator emits (test value == Const(case_i) in order, else default, else the
+   end) selects exactly the statements C selects, for every list of labelled items (instance of c01_stmt_exact,
+   stated separately): int f(int a0) { int a1 = 0; switch (a0 & 3) { case 1: a1 += 10; case 2: a1 += 20; break;
+   default: a1 = 7; } return a1; } with a0 = 1 (fall through), 2, 3 (default) *)
+Example c01_switch_nonvacuous :
+  let body := SSeq (SDecl 1 (XLit TInt 0))
+             (SSeq (SSwitch (XBin BAnd (XVar 0) (XLit TInt 3))
+                            [(LCase 1, SExpr (XAssignOp BAdd 1 (XLit TInt 10)));
+                             (LCase 2, SExpr (XAssignOp BAdd 1 (XLit TInt 20))); (LNone, SBreak);
+                             (LDefault, SExpr (XAssign 1 (XLit TInt 7)))])
+                   (SReturn (XVar 1))) in
+  agrees_stmt (sem_c11a (cg_ctx tg_x86_64)) (dm_of (cg_ctx tg_x86_64)) [TInt; TInt] body = true /\
+  map (fun a => run_fn (dm_of (cg_ctx tg_x86_64)) [TInt; TInt] 1 TInt 50 [a] body) [1; 2; 3; 4] =
+  [Some 30; Some 20; Some 7; Some 7].
+Proof. split; reflexivity. Qed.
+
+(* 16-bit int targets: with fixes/C01-uint16-unsigned.diff (uint_types[2] = ir.u16) the IR type map of msp430 is faithful
+   and every theorem above applies to it; the exported map decides (I16 today) *)
+Theorem c01_msp430_faithful_when_unsigned : forall k, cg_u16 tg_msp430 = U16 -> faithful k tg_msp430.
+Proof.
+  intros k H t. unfold irty, uint_types, int_types. rewrite H.
+  destruct t; reflexivity.
+Qed.
+Print Assumptions c01_msp430_faithful_when_unsigned.
 
 Example c01_nonvacuous :
   wf_ctx (cg_ctx tg_x86_64) /\
